@@ -2,9 +2,9 @@
 from . import regcommon, worldcommon
 
 THEOREMS = ["ZI.Registry.subsRec_eq_concat", "ZI.Registry.C07_multiset", "ZI.Registry.C07_order_first_position", "ZI.Lv.find_update", "ZI.Lv.find_remove"]
-PROFILE = dict(weights=[0.5, 0.2, 7, 2.5, 0.6, 0.1, 0], queries=["lookupAll", "subs", "book"], nregs=(1, 3), extra_queries=4, arity=[0, 1, 1, 1, 2, 2, 3])
+PROFILE = dict(weights=[0.5, 0.2, 7, 2.5, 0.6, 0.1, 0], queries=["lookupAll", "subs", "book"], nregs=(1, 5), regbases=[0, 1, 1, 1, 1, 2], extra_queries=4, arity=[0, 1, 1, 1, 2, 2, 3])
 # "every reachable state" includes states reached by declaration and hierarchy changes on the required specifications
-WORLD_PROFILE = dict(weights=[0.5, 0.2, 5, 1.5, 2.5, 2.5, 2, 0.5, 0.1], nregs=(1, 3), extra=1, provq=0, arity=[1, 2, 2, 3])
+WORLD_PROFILE = dict(weights=[0.5, 0.2, 5, 1.5, 2.5, 2.5, 2, 1.0, 0.2], nregs=(1, 5), extra=1, provq=0, arity=[1, 2, 2, 3], scen_rebuild=0.08)
 
 
 def check(tier):
